@@ -992,9 +992,15 @@ class H2Connection:
         )
         self.streams[promised_stream_id] = new_stream
 
-        frames = stream.push_stream_in_band(
-            promised_stream_id, request_headers, self.encoder
-        )
+        try:
+            frames = stream.push_stream_in_band(
+                promised_stream_id, request_headers, self.encoder
+            )
+        except ProtocolError:
+            # Nothing was promised: the stream we prepared for the push must
+            # not stay behind as an idle stream the application could use.
+            del self.streams[promised_stream_id]
+            raise
         new_frames = new_stream.locally_pushed()
         self._prepare_for_sending(frames + new_frames)
 
